@@ -96,6 +96,86 @@ def paging(chk, pagingtracer):
     chk.compare('Mem128 model vs pagingtracer.Memory/PagingTracer', ops, impl, model)
 
 
+def paging_programs(chk, classes, pagingtracer, only=None):
+    """The paging clause on the four real simulators (the C ones page by themselves, with or without a
+    tracer): a Z80 program writes a history of values to ports with OUT (C),A, then reads 0xC000 (every
+    bank holds its own number), reads the ROM slot, and writes a marker to 0xC001.  Oracle: the
+    property's own statement (mapping = last accepted write; lock absorbing; one physical bank written;
+    banks 5 and 2 fixed)."""
+    rng = chk.rng
+    ORG, RES, MARK = 0x8000, 0x8100, 0xAA
+
+    class Tr(pagingtracer.PagingTracer):
+        def __init__(self, simulator, out7ffd):
+            self.simulator = simulator
+            self.out7ffd = out7ffd
+            self.outfffd = 0
+            self.outfe = 0
+            self.border = 0
+            self.ay = [0] * 16
+
+    def program(ws):
+        code = []
+        for p, v in ws:
+            code += [0x01, p & 255, p >> 8, 0x3E, v, 0xED, 0x79]      # LD BC,p; LD A,v; OUT (C),A
+        code += [0x3A, 0x00, 0xC0, 0x32, RES & 255, RES >> 8]          # LD A,(C000); LD (RES),A
+        code += [0x3A, 0x00, 0x00, 0x32, (RES + 1) & 255, RES >> 8]    # LD A,(0000); LD (RES+1),A
+        code += [0x3E, MARK, 0x32, 0x01, 0xC0]                         # LD A,MARK; LD (C001),A
+        return code
+
+    def one(name, cls, tracer, o0, ws):
+        memory = pagingtracer.Memory([[b] * 0x4000 for b in range(8)], o0)
+        memory.roms = ([100] * 0x4000, [101] * 0x4000)
+        memory.out7ffd(o0)
+        code = program(ws)
+        for i, b in enumerate(code):
+            memory[ORG + i] = b
+        sim = cls(memory, {'PC': ORG, 'SP': 0xBFF0}, config={'frame_duration': 70908, 'int_active': 36})
+        if tracer:
+            sim.set_tracer(Tr(sim, o0))
+        sim.run(ORG, ORG + len(code))
+        mem = sim.memory
+        last = o0
+        for p, v in ws:
+            if p & 0x8002 == 0 and last & 0x20 == 0:
+                last = v
+        # the program itself lives in bank 2: paged at 0xC000 its first byte is read back there
+        want = (code[0] if last & 7 == 2 else last & 7, 100 + ((last >> 4) & 1), [last & 7])
+        got = (mem.banks[2][RES - 0x8000], mem.banks[2][RES + 1 - 0x8000], [b for b in range(8) if mem.banks[b][1] == MARK])
+        fixed = all(v == 5 for v in mem.banks[5][2:64]) and all(mem.banks[2][i] == 2 for i in range(0x200, 0x240)) \
+            and all(v == 100 for v in mem.roms[0][:8]) and all(v == 101 for v in mem.roms[1][:8])
+        chk.case(f'paging-prog:{name}', (name, tracer, o0, tuple(ws)), {'impl': name, 'tracer': tracer, 'o7ffd0': o0, 'writes': ws} if len(ws) == 3 and o0 == 0 else None)
+        if got != want or not fixed:
+            chk.violation(f'paging-program:{name}', f'{name}{"+tracer" if tracer else ""}: 7ffd={o0:#x}, OUT history {[(hex(p), hex(v)) for p, v in ws]}: '
+                          f'bank read at C000 / ROM read at 0000 / banks written = {got}, last accepted write {last:#x} gives {want}; fixed banks and ROMs intact: {fixed}',
+                          {'kind': 'paging-program', 'impl': name, 'tracer': tracer, 'o0': o0, 'ws': ws})
+            return False
+        return True
+
+    if only:
+        name, tracer, o0, ws = only
+        return one(name, dict(classes)[name], tracer, o0, [tuple(w) for w in ws])
+    vals = (0x00, 0x01, 0x07, 0x10, 0x11, 0x17, 0x20, 0x21, 0x30, 0x31, 0x27, 0xFF, 0xC3)
+    ports = (0x7FFD, 0x7FFD, 0x7FFD, 0x00FD, 0x3FFD, 0x7FFF, 0xFFFD, 0x7FFC)
+    hists = []
+    for o0 in (0x00, 0x03, 0x10):
+        for v1 in vals:
+            for v2 in ((0x01, 0x04, 0x10, 0x14, 0x20, 0x33) if chk.thorough else (0x01, 0x14)):
+                hists.append((o0, [(0x7FFD, v1), (0x7FFD, v2)]))
+                hists.append((o0, [(0x7FFD, v1), (0x7FFD, v1 | 0x20), (0x7FFD, v2)]))    # lock while keeping the mapping
+                hists.append((o0, [(0x7FFD, v1), (0x7FFD, v1 ^ 0x20), (0x7FFD, v2)]))
+    for _ in range(chk.scale(60, 4000)):
+        hists.append((rng.choice((0, 0, 0x10, 0x07, 0x20, rng.randrange(256))),
+                      [(rng.choice(ports + (rng.randrange(65536),)), rng.choice(vals + (rng.randrange(256),))) for _ in range(rng.randrange(1, 5))]))
+    for name, cls in classes:
+        # the Python simulators page through the tracer only; the C ones also without it
+        for tracer in ((True,) if name.startswith('py') else (False, True)):
+            hs = hists if not name.startswith('py') or chk.thorough else hists[::3]
+            for o0, ws in hs:
+                if not one(name, cls, tracer, o0, ws):
+                    break
+
+
 def programs(chk, classes):
     """E2E: random programs on the real simulators; ROM/ranges/T checked after every instruction."""
     rng = chk.rng
@@ -189,6 +269,7 @@ def run(chk):
                                       {'kind': 'step', 'impl': name, 'state': [st[0], st[1], {str(k): v for k, v in st[2].items()}, st[3], st[4]]})
     paging(chk, pagingtracer)
     programs(chk, [('py-plain', simulator.Simulator), ('py-cmio', cmiosimulator.CMIOSimulator), ('c-plain', CS), ('c-cmio', CC)])
+    paging_programs(chk, [('py-plain', simulator.Simulator), ('py-cmio', cmiosimulator.CMIOSimulator), ('c-plain', CS), ('c-cmio', CC)], pagingtracer)
 
 
 def replay(chk, data):
@@ -227,4 +308,9 @@ def replay(chk, data):
             if mem[0] != 100 + ((last >> 4) & 1) or mem[0xC000] != last & 7 or mem[0x4000] != 5 or mem[0x8000] != 2:
                 return True
         return False
+    if data['kind'] == 'paging-program':
+        import cbuild
+        CS, CC = cbuild.build(chk.scratch)
+        classes = [('py-plain', simulator.Simulator), ('py-cmio', cmiosimulator.CMIOSimulator), ('c-plain', CS), ('c-cmio', CC)]
+        return not paging_programs(chk, classes, pagingtracer, only=(data['impl'], data['tracer'], data['o0'], data['ws']))
     return True
